@@ -1,6 +1,7 @@
 """C03 -- results are well-formed: shape, labels, finite, non-negative, zero rows."""
 import math
-import gen, vf, oracles, pyspec
+import os
+import gen, vf, oracles, pyspec, cli, files
 
 
 def degenerate_e2e(rng, cid):
@@ -57,7 +58,54 @@ def run(ctx):
     res = ctx.component('K-E2E(status, labels, start states)', cases, keys={'status', 'labels', 'start:u', 'start:v'})
     graphs = [gen.gen_graph_random(rng.fork('g%d' % k), 500000 + k)[0] for k in range(ctx.budget(200, 3000))]
     ctx.component('K-GRAPH(labels)', graphs, keys={'dims', 'labels', 'nv'})
-    n_eval = 0
+    # ---- the command line front end: adjacency files in which a vertex label appears ONLY, or FIRST, in a record whose weights are all zero (the
+    #      record adds no edge, but its labels are vertices: a zero row each, at the position of the first appearance)
+    cli_metas = []
+    wdc = os.path.join(vf.workdir(), 'c03cli')
+    for j in range(ctx.budget(10, 60)):
+        sub = rng.fork('zl%d' % j)
+        L = sub.rint(1, 3)
+        labs = [str(x) for x in sub.shuffle(range(1, 40))[:sub.rint(5, 8)]]
+        recs = []
+        for _ in range(sub.rint(3, 9)):
+            s_, t_ = sub.choice(labs[:4]), sub.choice(labs[:4])
+            recs.append((s_, t_, [str(sub.rint(0, 2)) for _ in range(L)]))
+        if not any(float(x) > 0 for _, _, ws in recs for x in ws):
+            recs[0] = (recs[0][0], recs[0][1], ['1'] * L)
+        # all-zero records naming new labels: before everything, in the middle, at the end; one of the labels gets an edge later
+        zero = ['0'] * L
+        recs.insert(sub.below(len(recs) + 1), (labs[4], sub.choice(labs[:4]), zero))
+        if len(labs) > 5:
+            recs.insert(0 if sub.chance(0.5) else sub.below(len(recs) + 1), (sub.choice(labs[:4]), labs[5], zero))
+            recs.append((labs[5], labs[0], ['1'] + zero[1:]))
+        if len(labs) > 6:
+            recs.append((labs[6], labs[6], zero))
+        _line, m = cli.make_case(sub, 770000 + j, wdc, variant=(j % 2 == 0, (j // 2) % 2 == 0, False), edges={'L': L, 'recs': recs})
+        cli_metas.append(m)
+    n_cli = 0
+    if cli_metas:
+        cli.compare_with_model(ctx, ctx.bdir, cli_metas, name='K-CLI(model, labels of all-zero records)', check_created=False)
+        for m in cli_metas:
+            rc, out = vf.run_cli(ctx.bdir, m['args'], m['dir'])
+            if rc != 0:
+                continue
+            got = files.read_result_files(m['out'])
+            want = gen.first_appearance(m['recs'])
+            _, ul, vl = gen.model_lists(m['recs'], m['directed'], 'u')
+            for name, lst in (('u_out.dat', ul),) + ((('v_out.dat', vl),) if m['directed'] else ()):
+                rows = [r for r in got.get(name, []) if r and files.is_number(r[0])]
+                n_cli += 1
+                bad = None
+                if [r[0] for r in rows] != want:
+                    bad = '%s lists the labels %s, the distinct labels of the file in order of first appearance are %s' % (name, [r[0] for r in rows], want)
+                elif any(len(r) != 1 + m['K'] for r in rows):
+                    bad = '%s: a row does not have K entries' % name
+                elif any(float(x) != 0.0 for i, r in enumerate(rows) if i not in lst for x in r[1:]):
+                    bad = '%s: the row of a vertex without such an edge is not zero' % name
+                if bad:
+                    ctx.violation('well-formed(command line)', bad, {'args': m['args'], 'adjacency_file': open(os.path.join(m['dir'], [a for a in m['args'] if a.startswith('net_')][0]), 'rb').read().decode('latin-1')})
+                    break
+    n_eval = n_cli
     keys = set()
     if res:
         for k, m in metas.items():
